@@ -1443,6 +1443,9 @@ func (w *World) inlinedWorld(key string, methods []string) (*World, []string, er
 	if err := pass(func(n *normalizer, fd *ast.FuncDecl) (bool, error) { return n.unhoistPass(fd) }, 1); err != nil {
 		return nil, notes, err
 	}
+	if err := pass(func(n *normalizer, fd *ast.FuncDecl) (bool, error) { return n.earlyExitPass(fd) }, 1); err != nil {
+		return nil, notes, err
+	}
 	if !any {
 		return nil, nil, nil
 	}
